@@ -902,4 +902,81 @@ example : Good (base exCore)
     (run exCore [.addEdge, .convert, .addEdge, .restore, .addEdge, .removeEdge, .convert, .restore]) :=
   good_run _ _ _ (good_init exCore (by decide) (by decide) (by decide) (by decide)) (by decide) (by decide)
 
+
+/-! ### exactly when `convert` scales the centre assembly (`scalesCentre`) -/
+
+/-- **`scalesCentre` after `addEdgeAssemblies`, exact condition.** `addEdgeAssemblies` ends by clearing the
+"changed since last geometry transformation" flag; afterwards `convert` still scales the centre iff the changer
+already holds its parameter list (a conversion scaled before), or an edge assembly is present (its removal inside
+`convert` sets the flag again), or there was an assembly on the 0° line (then an edge assembly was just added or was
+already there). So `scalesCentre` is lost exactly by an `addEdgeAssemblies` call that has nothing to add on a core with
+no assembly on the 0° / 120° lines, before any scaled conversion — the finding `centre-params-not-scaled`. -/
+theorem scalesCentre_addEdge_iff (s : State) (hf : s.full = false) (he : s.edgeAdded = []) :
+    scalesCentre (addEdge s) = true ↔
+      (s.convList = true ∨ (∃ a ∈ s.kids, on120 a.cell = true) ∨ (∃ a ∈ s.kids, on0 a.cell = true)) := by
+  have hl : ∀ a ∈ (s.kids.filter (fun a => on0 a.cell)).mergeSort leI, on0 a.cell = true := by
+    intro a ha
+    exact (List.mem_filter.1 ((List.mergeSort_perm _ _).mem_iff.1 ha)).2
+  obtain ⟨_, extra, hk, hex, hsrc⟩ := addEdgeLoop_spec _ s hl
+  obtain ⟨_, m2, _⟩ := addEdgeLoop_meta ((s.kids.filter (fun a => on0 a.cell)).mergeSort leI) s
+  have hkids : (addEdge s).kids = s.kids ++ extra := by simp [addEdge, hf, he, hk]
+  have hcl : (addEdge s).convList = s.convList := by simp [addEdge, hf, he, m2]
+  have hfl : (addEdge s).flag = false := by simp [addEdge, hf, he]
+  simp only [scalesCentre, hfl, hcl, hkids, Bool.false_or, Bool.or_eq_true, List.any_append, List.any_eq_true]
+  constructor
+  · rintro (h | h | h)
+    · exact Or.inl h
+    · exact Or.inr (Or.inl h)
+    · obtain ⟨b, hb, _⟩ := h
+      obtain ⟨a, ha, _⟩ := hsrc b hb
+      have ha' := List.mem_filter.1 ((List.mergeSort_perm _ _).mem_iff.1 ha)
+      exact Or.inr (Or.inr ⟨a, ha'.1, ha'.2⟩)
+  · rintro (h | h | ⟨a, ha, ha0⟩)
+    · exact Or.inl h
+    · exact Or.inr (Or.inl h)
+    · have hne : (s.kids.filter (fun a => on0 a.cell)).mergeSort leI ≠ [] :=
+        List.ne_nil_of_mem ((List.mergeSort_perm _ _).mem_iff.2 (List.mem_filter.2 ⟨ha, ha0⟩))
+      have := addEdgeLoop_has_edge _ s hl hne
+      rw [hk, List.any_append, Bool.or_eq_true, List.any_eq_true, List.any_eq_true] at this
+      rcases this with h | h
+      · exact Or.inr (Or.inl h)
+      · exact Or.inr (Or.inr h)
+
+/-- a changer that already skipped (`edgeAdded ≠ []`) or a full core: `addEdgeAssemblies` returns early, nothing changes -/
+theorem addEdge_noop (s : State) (h : s.full = true ∨ s.edgeAdded ≠ []) : addEdge s = s := by
+  unfold addEdge
+  rcases h with h | h
+  · simp [h]
+  · cases hf : s.full
+    · have : s.edgeAdded.isEmpty = false := by cases he : s.edgeAdded <;> simp_all
+      simp [this]
+    · simp
+
+/-- **every other operation keeps `scalesCentre`** in third-core states: `removeEdgeAssemblies` (removing an edge
+assembly sets the flag), `restorePreviousGeometry` with nothing pending; and undoing a conversion sets the flag. -/
+theorem scalesCentre_kept (s : State) (hf : s.full = false) (hca : s.convAdded = []) (h : scalesCentre s = true) :
+    scalesCentre (removeEdge s) = true ∧ scalesCentre (restore s) = true := by
+  constructor
+  · unfold removeEdge removeEdgeCore
+    simp only [hf, Bool.false_eq_true, if_false]
+    simp only [scalesCentre, Bool.or_eq_true] at h ⊢
+    rcases h with (h | h) | h
+    · left; left; left; exact h
+    · left; right; exact h
+    · left; left; right; exact h
+  · unfold restore
+    simp only [hca, List.isEmpty_nil, Bool.not_true, Bool.false_eq_true, if_false]
+    exact h
+
+/-- **from a freshly loaded third core (`good_init`: parameters assigned, fresh changers) every reachable
+third-core state scales the centre**, provided the core has an assembly on the 0° line (so that an
+`addEdgeAssemblies` never has nothing to add) and a non-centre assembly. -/
+theorem run_scalesCentre (s : State) (ops : List Op) (hf : s.full = false) (hca : s.convAdded = [])
+    (hids : ∀ a ∈ s.kids, a.id < s.next) (hflag : s.flag = true)
+    (ho : ∃ a ∈ base s, isCentre a.cell = false) (h0 : ∃ a ∈ base s, on0 a.cell = true)
+    (hthird : (run s ops).full = false) : scalesCentre (run s ops) = true := by
+  rcases good_run (base s) ops s (good_init s hf hca hids hflag) ho h0 with h | ⟨t, ht, he⟩
+  · exact h.scales
+  · rw [he, convert_full t ht.third] at hthird; exact absurd hthird (by simp)
+
 end ArmiVerif.Sym3
